@@ -35,8 +35,25 @@ Definition ce_pc (par : option rval) (rf : option pyval) : option pcoord :=
   | Some _ => None
   end.
 
+(* Processor._is_empty_slice(node_coord) (fix f20b613): the node is an empty list,
+   the parent a list, parentref an int, the producing segment an INDEX slice
+   (`a:b`), and the parent does not hold that very list object at parentref.
+   The last clause is always true of a list the evaluator built (RList: no
+   object of the document); a real empty sequence of the document is
+   RNode (NSeq _ []), never RList [], and the only RCoords the evaluator builds
+   around an empty RList is the one of the slice branch of Eval.v (by_index),
+   whose segment is that slice: so the test reads the node, the parent and the
+   parentref only.  (A parent that is itself
+   a list of the evaluator is outside the adapter anyway: ce_pc.) *)
+Definition ce_empty_slice (nd : rval) (par : option rval) (rf : option pyval) : bool :=
+  match nd, par, rf with
+  | RList [], Some (RNode (NSeq _ _)), Some r => match as_index r with Some _ => true | None => false end
+  | _, _, _ => false
+  end.
+
 (* One gathered NodeCoords as _apply_change reads it:
      isinstance(node_coord.node, NodeCoords)                          -> CWrap
+     _is_empty_slice(node_coord): the Array slice that selects nothing -> CList [] (nothing to change / delete)
      a non-empty list whose first element is a NodeCoords             -> CList
      anything else (a document node; a list of plain nodes: [n:n])    -> CNode
    [nk]: node_coord.path_segment is a [name()] keyword segment.  Only the
@@ -64,7 +81,7 @@ Fixpoint ce_coord (nk : bool) (x : rval) {struct x} : option coord :=
               | Some cs => Some (CList cs pc nk)
               | None => None
               end
-          | _ => Some (CNode pc nk)
+          | _ => if ce_empty_slice nd par rf then Some (CList [] pc nk) else Some (CNode pc nk)
           end
       end
   | _ => None                              (* the drivers yield NodeCoords only *)
